@@ -182,7 +182,7 @@ def run(chk, replay=None):
         if corpus:
             absorb(corpus, RL.run_impl(corpus))
         bound = 3 if tier == "quick" else 4
-        per_cfg = 800 if tier == "quick" else 40000
+        per_cfg = 800 if tier == "quick" else 6000
         cfgs = []
         for (name, prefix, later, threads, scripts) in loop_configs(tier):
             for poller in ("epoll", "poll"):
@@ -217,8 +217,8 @@ def run(chk, replay=None):
             e = enums[name]
             stats["systematic_runs"] += e.nruns
             stats["configs"][name] = {"runs": e.nruns, "exhaustive_within_bound": e.exhaustive(), "preemption_bound": bound}
-        nl = 1500 if tier == "quick" else 60000
-        ne = 700 if tier == "quick" else 30000
+        nl = 1500 if tier == "quick" else 80000
+        ne = 700 if tier == "quick" else 40000
         cases = [gen_random_loop(rng, "rl%d" % i) for i in range(nl)] + [gen_random_elt(rng, "re%d" % i) for i in range(ne)]
         pc = pool_cases(rng, tier)
         cases += pc
